@@ -409,6 +409,27 @@ def r8(ctx):
               'the check value of a new object is computed from the check value its slot had before',
               'the check value is drawn afresh (random) for every object: sooner or later a slot is given a value it had before, and every stale copy of that old handle '
               'resolves to the new object (the default random() sequence repeats a value after about 15000 uses of one slot)')
+    # the value the slot has now may be stored back only for a slot that has never held an object (its check is still 0)
+    vu = unwrap(sts[0].rhs)
+    same = None
+    if vu.get('k') == 'var':
+        vn = vu['n']
+        plain = [ev for ev in c.events() if (ev.kind == 'STORE' and estr(ev.lhs) == vn and ev.d['op'] == '=' and last_field(unwrap(ev.rhs)) == ('qb_hdb_handle', 'check')) or
+                 (ev.kind == 'DECL' and ev.d['var'] == vn and ev.d.get('init') is not None and last_field(unwrap(ev.d['init'])) == ('qb_hdb_handle', 'check'))]
+
+        def unused(a, fb):
+            return a.ls == vn and ((a.op == '<=' and a.rc == 0) or (a.op == '<' and a.rc == 1) or (a.op == '==' and a.rc == 0))
+        for d in plain:
+            pth = c.uncut_path(sts[0], unused, start=('after', d),
+                               also_stop=lambda x, d=d: x is not d and x.kind == 'STORE' and estr(x.lhs) == vn)
+            if pth is not None:
+                same = (d, pth)
+    elif last_field(vu) == ('qb_hdb_handle', 'check'):
+        same = (sts[0], None)
+    ctx.check('R8', 'check-never-the-value-the-slot-has', same is None, sts[0],
+              'the slot\'s present check value is stored back unchanged only for a slot that has never been used (value 0)',
+              'for a slot that has been used before there is a path on which the value stored is the check value it already has: the object created in the reused slot gets '
+              'the handle of the one before it, and a stale copy of that handle resolves to the new object', {'path': c.path_lines(same[1]) if same and same[1] else None})
     resets = []
     for f in prog.all_fns(files={'lib/hdb.c'}):
         if f.name == 'qb_hdb_handle_create':
